@@ -26,6 +26,8 @@ pub enum Thrown {
     Typed(u8, i64),
     /// a runtime error, identified by its message class (first line)
     Runtime(String),
+    /// a thrown number
+    Num(i64),
 }
 
 impl Thrown {
@@ -35,6 +37,7 @@ impl Thrown {
             Thrown::Str(s) => s.clone(),
             Thrown::Typed(k, c) => format!("T{k}({c})"),
             Thrown::Runtime(s) => s.clone(),
+            Thrown::Num(n) => n.to_string(),
         }
     }
 }
@@ -365,6 +368,11 @@ impl<'a> Model<'a> {
                 let r = self.invoke(func, 0, line, c.conduit)?;
                 Ok(3 + r.to_string().len() as i64)
             }
+            Conduit::Chain(..) => {
+                self.invoke(func, a, line, c.conduit)?;
+                self.invoke(func, a.wrapping_add(1), line, c.conduit)?;
+                Ok(0)
+            }
             Conduit::Each | Conduit::Transform | Conduit::SortKey => {
                 self.invoke(func, a, line, c.conduit)?;
                 self.invoke(func, a.wrapping_add(1), line, c.conduit)?;
@@ -526,6 +534,10 @@ impl<'a> Model<'a> {
                 let c = self.eval(e, f)?;
                 return Err(self.throw_stmt(Thrown::Typed(*k, c)));
             }
+            Stmt::Throw(ThrowKind::Num(e)) => {
+                let c = self.eval(e, f)?;
+                return Err(self.throw_stmt(Thrown::Num(c)));
+            }
             Stmt::Try(t) => self.exec_try(t, f)?,
             Stmt::Dump(n) => self.dump(*n, f),
             Stmt::Expr(e) => {
@@ -554,6 +566,7 @@ impl<'a> Model<'a> {
                 .position(|c| match (&c.kind, &th) {
                     (CatchKind::Any, _) => true,
                     (CatchKind::String, Thrown::Str(_) | Thrown::Runtime(_)) => true,
+                    (CatchKind::Number, Thrown::Num(_)) => true,
                     (CatchKind::Typed(k), Thrown::Typed(k2, _)) => k == k2,
                     _ => false,
                 })
@@ -564,6 +577,7 @@ impl<'a> Model<'a> {
                 match t.catches[ix].kind {
                     CatchKind::Any => "any",
                     CatchKind::String => "string",
+                    CatchKind::Number => "number",
                     CatchKind::Typed(_) => "typed",
                 }
             ));
